@@ -486,6 +486,18 @@ type Contract struct {
 	Inits    map[string]SExpr  // ghost variables initialised at entry of this function (verification only)
 	Implements []string        // function-type roles whose contract this function must also satisfy
 	Trusted  bool // contract is assumed, the body is not verified against it (listed in the evidence)
+	StoresOnly []*StoreRule // restrictions on the stores the function's own body performs
+}
+
+// StoreRule ("storesonly[props] label: fresh, Type.Field, ...") restricts the store instructions of the
+// function's own body (callees with contracts are not its own body; inlined callees are): each store
+// goes to an object allocated during the call, or to one of the listed struct fields.
+type StoreRule struct {
+	Props   []string
+	Label   string
+	Allowed map[string]bool
+	Line    int
+	Src     string
 }
 
 type Axiom struct {
@@ -757,6 +769,18 @@ func (sf *SpecFile) load(path string) error {
 			default:
 				cur.Asserts = append(cur.Asserts, cl)
 			}
+		case "storesonly":
+			if cur == nil {
+				return fail(fmt.Errorf("clause outside func"))
+			}
+			props, label, body := parseTagsLabel(rest)
+			r := &StoreRule{Props: props, Label: label, Allowed: map[string]bool{}, Line: l.line, Src: body}
+			for _, m := range splitTop(body) {
+				if m = strings.TrimSpace(m); m != "" {
+					r.Allowed[m] = true
+				}
+			}
+			cur.StoresOnly = append(cur.StoresOnly, r)
 		case "modifies":
 			if cur == nil {
 				return fail(fmt.Errorf("clause outside func"))
@@ -932,6 +956,13 @@ func (c *Contract) hasProp(p string) bool {
 				if q == p {
 					return true
 				}
+			}
+		}
+	}
+	for _, r := range c.StoresOnly {
+		for _, q := range r.Props {
+			if q == p {
+				return true
 			}
 		}
 	}
